@@ -140,7 +140,7 @@ class CtxWorld(World):
     STUB = ["sockets/selector (in-memory) with recording middlebox", "threads (baton scheduler, line pre-emption in handleRequest)",
             "time (virtual clock)", "uuid4 (seeded)"]
     PROBES = ["raise_after_set", "oneway_mutate", "worker_reuse", "handshake_after_raise", "batch", "ping", "prop",
-              "assign_idiom", "mutate_idiom", "multiplex", "thread", "preempted", "pool_full_retry", "oneway_delayed", "reply_reset_then_reconnect", "bad_handshake", "peer_address_unavailable", "reset_after_oneway_request",
+              "assign_idiom", "mutate_idiom", "multiplex", "thread", "preempted", "pool_full_retry", "oneway_delayed", "reply_reset_then_reconnect", "failed_call_annotations_looked_at", "bad_handshake", "peer_address_unavailable", "reset_after_oneway_request",
               "daemon_annotations_hook", "stream_item_context", "request_annotations_written_in_place", "request_without_annotations", "serving_thread_was_a_client", "nested_call"]
     RULE = ("plan = (server type, pool size 1-2, serializer, 2-3 clients x 1-2 sessions x 1-5 calls of kinds "
             "ret/boom/ow/plain/batch/prop/ping/stream (an item stream whose generator body records the context during every fetch), each with a unique annotation key set by assignment or mutation, "
@@ -597,10 +597,20 @@ class CtxWorld(World):
             if m["type"] == N.MSG_RESULT:
                 prev_exc = bool(m["flags"] & N.FLAG_EXC)
         # ---- (3) the client observes exactly the annotations of its own reply
+        call_keys = {r.get("key") for r in ops.values()} | {r.get("ikey") for r in ops.values()}
         for tok, rec in ops.items():
-            if rec["kind"] == "ping" or rec["outcome"].startswith("comm"):
+            if rec["kind"] == "ping":
                 continue
             seen = {k: v for k, v in (rec["seen"] or {}).items() if k not in PYRO_KEYS and not own_key(k, v)}
+            if rec["outcome"].startswith("comm"):
+                # a call that got no reply (the reply was replaced by a reset): whatever the client sees afterwards, it cannot be
+                # an annotation that some call's reply carried - this call had no reply
+                stale = sorted(k for k in seen if k in call_keys)
+                ctx.probe("failed_call_annotations_looked_at")
+                if stale:
+                    ctx.violate("client-sees-foreign-annotation", "after-failed-call", "%s(%s) failed with %s without a reply, afterwards "
+                                "the client sees %r: the annotations of an earlier call's reply" % (rec["kind"], tok, rec["outcome"], seen))
+                continue
             if rec["kind"] == "ow":
                 expect = {}
             else:
